@@ -1,14 +1,18 @@
 """C17 — MakeValid always returns a valid geometry and preserves valid input.
 
 proof : lean/GeosModel/Props/C17.lean — CORE: GeometryFixer's type dispatch and keep-collapsed decision table
-        (fix_dispatch_total, fix_dim_le, fix_no_collapse, collapse_kept_iff, fix_collection_ignores_keep, fix_empty_atomic) + consistency lemmas of the contract predicates.
+        (fix_dispatch_total, fix_dim_le, fix_no_collapse, collapse_kept_iff, fix_collection_keeps, fix_nest, collapse_in_collection_kept_iff, fix_empty_atomic) + consistency lemmas of the contract predicates;
+        collection_dropped_keep_collapsed (`fixDropping`: the behaviour before fixCollection handed keep-collapsed down, regression reference), buildRoute_isSome_iff.
+trans : Props/C17Gen.lean, C17GenMV.lean — the per-type functions of GeometryFixer.cpp, getResult and MakeValid::build, regenerated from the
+        source on every run (translate/specs/geometry_fixer.py, make_valid.py), equal the dispatch model for every shape.
 tie   : stream makevalid — the valid/invalid generators of C05 (structurally well-formed inputs only) through
         GEOSMakeValidWithParams: LINEWORK, STRUCTURE keepCollapsed off / on.  The driver scales input and output doubles
         exactly to one integer grid and checks the contract: output valid by the C05 reference (independent of
         GEOSisValid, which is also compared), dimension <= input, envelope within input envelope, valid input comes
         back topologically equal (exact reference DE-9IM of C01), linework: every input vertex on the output,
         structure: membership of 24x24 samples = documented region (non-zero-winding shells, holes meeting the fixed
-        shell subtracted, other holes added), result type = dispatch model, idempotence (computed with GEOS).
+        shell subtracted, other holes added), collapses inside collections kept when requested (regression clause `keep-collapsed`),
+        result type = dispatch model, idempotence (computed with GEOS).
 A broken clause on a generated input IS a violation of C17.  Known defects are matched by structural signatures."""
 import os, json, glob
 import verif, gtok
@@ -51,11 +55,12 @@ def fields(v):
 def signature(verdict):
     """Structural key of a broken clause.
     clause : terminates | returns-geometry | output-finite | output-valid | isvalid-vs-ref | dimension | envelope | valid-input-preserved |
-             vertex-kept | area | dispatch | idempotent | crash
+             vertex-kept | area | keep-collapsed | dispatch | idempotent | crash
     method : L (linework) | S (structure);  keep: keepCollapsed (structure only)
     finite : all input ordinates finite;  invalidLinearRing / pointRing: the input contains an invalid LinearRing element /
     a polygon ring all of whose points coincide (exact, from the driver);  emptyOutput: the result is empty;
-    ringRetracesEdge: some polygon ring runs over one of its own edges more than once;  model / impl: result types of the dispatch clause"""
+    ringRetracesEdge: some polygon ring runs over one of its own edges more than once;  model / impl: result types of the dispatch clause;
+    insideCollection (keep-collapsed clause): the collapse that was not kept although keepCollapsed is on is an element of a GeometryCollection"""
     t = verdict.split()
     if verdict.startswith("crash"):
         return {"clause": "crash"}
@@ -65,6 +70,7 @@ def signature(verdict):
     names = {"no-termination": "terminates", "crash-in-child": "crash", "null-result": "returns-geometry", "nonfinite-output": "output-finite", "output-invalid": "output-valid",
              "isvalid-disagrees-with-ref": "isvalid-vs-ref", "dimension": "dimension", "envelope": "envelope",
              "valid-input-changed": "valid-input-preserved", "vertex-lost": "vertex-kept", "area": "area", "dispatch": "dispatch",
+             "keep-collapsed": "keep-collapsed",
              "idempotence": "idempotent"}
     sig = {"clause": names.get(t[1], t[1]), "method": d.get("method", "?"), "finite": d.get("finite") == "1"}
     if sig["method"] == "S":
@@ -77,15 +83,26 @@ def signature(verdict):
         sig["onlyMultiWrapping"] = d.get("idem") == "W"
     if sig["clause"] == "area":
         sig["ringRetracesEdge"] = d.get("retrace") == "1"
+    if sig["clause"] == "keep-collapsed":
+        sig["insideCollection"] = d.get("incoll") == "1"
     if sig["clause"] == "dispatch":
         sig["model"] = d.get("mt", "?")[:40]
         sig["impl"] = d.get("it", "?")[:40]
     return sig
 
 
+def raw_keep(verdict, sig):
+    """the keepCollapsed value the case was run with (the C API takes an int; the harness sometimes passes one other than 0/1)"""
+    k = fields(verdict).get("kraw", "?")
+    try:
+        return str(int(k))
+    except ValueError:
+        return "1" if sig.get("keep") else "0"
+
+
 def shrink(exe, geom, verdict):
     sig0 = signature(verdict)
-    method, keep = sig0.get("method", "S"), "1" if sig0.get("keep") else "0"
+    method, keep = sig0.get("method", "S"), raw_keep(verdict, sig0)
     best = (geom, verdict)
     progress, rounds = True, 0
     while progress and rounds < 8:
@@ -120,8 +137,16 @@ def run(ctx):
         "inputs are structurally well-formed (rings closed with 0 or >= 3 points as the constructors require); unclosed rings forced in through LinearRing::setPoints are excluded",
         "envelope / vertex tolerances: 2^-36 of the largest coordinate; idempotence and GEOSisValid of the output are computed by GEOS in the harness",
         "the dispatch model takes the kind of areal sub-results (Polygon vs MultiPolygon, holes erasing the shell) from the observed output",
+        "translator (translate/cxx2lean.py + translate/cxx_ext.py, specs geometry_fixer / make_valid): input pointers = the model's Shape, "
+        "results = Option Res, GeometryFactory::createX = the Res of that kind, accessors = the Shape field named in Model/Fix/Cxx.lean; "
+        "fixRing, everything after the no-holes test of fixPolygonElement, ring->isValid(), OverlayNGRobust::Union and the recursive "
+        "elemFixer.getResult() of fixCollection are oracles of the regenerated code (hypotheses of the bridge theorems), not translated",
     ])
-    proved = ctx.prove(PROPS, extra_targets=(DRV,))
+    # translator tie: GeometryFixer's per-type decision functions + getResult, and MakeValid::build's dispatch, are regenerated
+    # from the current source and proved equal to the dispatch model (Props/C17Gen.lean, Props/C17GenMV.lean); the `dispatch`
+    # clause of the stream exercises the same functions on concrete inputs
+    proved = ctx.prove_generated([("geometry_fixer", "GeosModel/Generated/GeometryFixer.lean", "GeosModel.Props.C17Gen"),
+                                  ("make_valid", "GeosModel/Generated/MakeValid.lean", "GeosModel.Props.C17GenMV")], PROPS, extra_targets=(DRV,))
     ok, out = verif.build_geos("rel")
     if not ok:
         ctx.violation("GEOS does not build with -DGEOS_VERIF", {"kind": "build-failure", "log": out[-3000:]}, nofail=True)
@@ -184,7 +209,7 @@ def run(ctx):
             continue
         seen.append(sig)
         found_input = True
-        method, keep = sig.get("method", "S"), "1" if sig.get("keep") else "0"
+        method, keep = sig.get("method", "S"), raw_keep(got, sig)
         _, obs = evaluate(exe, geom, method, keep)
         op = obs.split(" | ") if obs else []
         ctx.violation("MakeValid breaks its contract: %s  [%s]" % (got, json.dumps(sig, sort_keys=True)),
